@@ -18,6 +18,8 @@ JudgeOp(e, n) ==
     /\ Report(UsageIsSum(node, e.usage, e.live) /\ e.diffs = 0, "C08", n, "sum/" \o e.op \o "/" \o e.kind)
     /\ Report((OkOp(e, "rbAlloc") \/ OkOp(e, "rbRealloc")) => SameUsage(e.usage, undo), "C08", n, "rollback/" \o e.op)
     /\ Report(e.class \notin {"ok", "skip"} => SameUsage(e.usage, cur), "C08", n, "failed-op-changed-usage/" \o e.op)
+    /\ Report((OkOp(e, "release") /\ Has(e, "retBefore")) => (SameUsage(e.retBefore, cur) /\ SameUsage(e.retAfter, e.usage)), "C08", n,
+              "reported-before-or-after-differs-from-the-usage/" \o e.op)
     /\ Report(NoOvercommit(node, e.usage), "C04", n, "hist/" \o e.op)
     /\ Report(OkOp(e, "remap") => RemapOK(node, e.usage, e.live, e.remap), "C32", n, "remap")
     /\ Report((OkOp(e, "realloc") /\ e.kind \in {"keep", "mem+", "mem-"}) => KeepBindOK(node, cur, e.before, e.after), "C33", n,
